@@ -98,6 +98,38 @@ def main():
     else:
         cases = gen_cases(ck, limit, step)
     items, results = run_wcases(ck, cases, step, limit, describe, per_shard=25)
+    # ---- production limit (binary built without the hook cfg): large queues must still reach the
+    # transport as ONE write holding every document + NUL (C02_framing is parametric in the limit; the
+    # hook-lowered limit caps a queue at 4096 bytes, so sizes beyond that are exercised here, as testing)
+    big_cases, big_bad = [], 0
+    if not ck.replay:
+        root = harness_root()
+        rc_, log_ = sh("cargo build --offline --bin biglimit --target-dir %s" % os.path.join(root, "target-nohook"),
+                       timeout=1500, cwd=root, env={"RUSTFLAGS": ""})
+        if rc_ != 0:
+            ck.violation("production-limit harness does not build against /repo", {"log": log_[-3000:]}, tag="pbuild",
+                         no_input=True)
+        else:
+            combos = [(300, 300), (1, 70000), (3, 33000), (2000, 100), (1, 300000), (40, 30000), (256, 200), (1, 65473),
+                      (1, 65474), (1, 65475)] + [(ck.rng.randrange(2, 600), ck.rng.randrange(1, 2000)) for _ in range(10)]
+            for i, (n, sz) in enumerate(combos):
+                big_cases.append({"id": i, "kind": "batch", "calls": n, "size": sz})
+            inp = "\n".join(json.dumps(c) for c in big_cases) + "\n"
+            rc_, out_ = sh(os.path.join(root, "target-nohook", "debug", "biglimit"), timeout=900, input=inp)
+            res = {}
+            for l in out_.splitlines():
+                if l.startswith("{"):
+                    r = json.loads(l)
+                    res[r["id"]] = r
+            for c in big_cases:
+                r = res.get(c["id"], {"crash": True})
+                if not (r.get("res") == "ok" and r.get("writes") == 1 and r.get("content_ok")):
+                    big_bad += 1
+                    ck.violation("production limit: %d pipelined calls of %d payload bytes then one flush reached the transport "
+                                 "as %s write(s) %s (content %s), expected one write of %s bytes" % (
+                                     c["calls"], c["size"], r.get("writes"), r.get("write_sizes"),
+                                     "ok" if r.get("content_ok") else "DIFFERS", r.get("expected_bytes")),
+                                 {"side": "out-production", "case": c, "impl": r}, tag="big%d" % c["id"])
     # coverage: free space at message start, growth steps spanned, refusals
     free = set()
     spans = {}
@@ -126,7 +158,9 @@ def main():
         "free_space_values_missing_0_600": [f for f in range(0, 601) if f not in free][:40],
         "growth_steps_spanned_by_one_message": spans, "refusals": refusals,
         "messages_ending_exactly_at_buffer_end": exact_end,
-        "step": step, "limit_under_hook": limit})
+        "step": step, "limit_under_hook": limit,
+        "production_limit_batches": len(big_cases), "production_limit_batch_failures": big_bad,
+        "largest_production_batch_bytes": max([c["calls"] * (c["size"] + 70) for c in big_cases] or [0])})
     for c in cases[:2] + cases[-2:]:
         ck.samples.append({"ops": describe(c), "wscript": c["wscript"]})
     ck.assumptions += [
